@@ -27,3 +27,11 @@ claim("C45",
       "AgentKey.sign_ssh_data with the real AgentSSH._send_message/_read_all: request bytes are proved equal to an independent reference encoding (len|13|string(blob)|string(data)|uint32 flags; flags 2/4 exactly for rsa-sha2-256/512 and their cert forms) for 12 algorithm names, symbolic blob/data, inner-key (certificate) blobs; reply type is a symbolic byte (non-14 raises, 14 returns the signature bytes unchanged) under every fragmentation of the reply.",
       "Trusted: z3, struct/BytesIO models. Blob/data <=2 (quick) / <=4 (thorough) bytes; the agent connection is a scripted stub.",
       design="7 (C45)")
+claim("C19",
+      "Inductive step over ghost variables (granted = initial window + adjusts, sent): the real Channel.send/send_stderr/_send/_wait_for_send_window run once from ANY pre-state with out_window_size == granted - sent >= 0 (peer window, peer max packet, request length over the full 32-bit range, data an opaque rope of symbolic length) and z3 proves bytes-in-message <= window, <= peer max packet (when >= 4096), window decremented by exactly the bytes sent, one message per call, progress; _window_adjust adds exactly the adjust; recv/recv_stderr grant at most the bytes consumed and conserve pending credit.",
+      "Trusted: z3/cvc5, the induction argument (invariant holds initially by _set_remote_channel, proved in the same case), Channel.lock making each step atomic (thread schedules are outside this check). BufferedPipe replaced by a byte counter (C26). Non-blocking mode only; blocking waits are C13/C25.",
+      design="7 (C19)", thorough=False)
+claim("C20",
+      "Credit-conservation invariant peer_window + buffered_stdout + buffered_stderr + consumed_not_yet_granted == local_window over a two-ended ghost model: each real step (_feed, _feed_extended with a symbolic 32-bit type code, recv, recv_stderr) from an arbitrary state satisfying it is proved by z3/cvc5 to preserve it, pending credit stays <= threshold < window, a read makes progress when data is buffered, and drained buffers imply an open peer window (so a sender with pending data can always continue).",
+      "Trusted: z3/cvc5 (cvc5 --solve-bv-as-int=sum decides the linear obligations z3 times out on), the induction argument, receive buffers as byte counters. A second case runs real BufferedPipes and real Message parsing on concrete sizes with a symbolic type code. Windows >= 32768 over the full 32-bit range.",
+      design="7 (C20)", thorough=False)
